@@ -87,8 +87,9 @@ PLAN.update({
         'fam': 'client',
         'inv': ['C08_Mirror', 'C08_FullyDisconnected', 'C08_ConnectOutcome',
                 'C08_BadNamespace', 'C08_HandlersOnce'],
-        'quick': ['cstate_quick', 'cstate_implicit'],
-        'thorough': ['cstate_fn', 'cstate_class', 'cstate_implicit'],
+        'quick': ['cstate_quick', 'cstate_implicit', 'cstate_rc'],
+        'thorough': ['cstate_fn', 'cstate_class', 'cstate_implicit',
+                     'cstate_rc'],
     },
     'C20': {
         'fam': 'threads',
@@ -201,7 +202,7 @@ PLAN.update({
         'fam': 'client',
         'inv': ['C09_EventDispatch', 'C09_IssuedIdUnique', 'C09_AckOutcome',
                 'C09_IssuedMatchesCore'],
-        'quick': ['cacks_quick'],
+        'quick': ['cacks_quick', 'cacks_quick_class'],
         'thorough': ['cacks_fn', 'cacks_class'],
     },
 })
